@@ -215,7 +215,7 @@ fn block(b: &mut Builder, depth: u32, protected: &mut Vec<i64>) {
 
 fn stmt(b: &mut Builder, depth: u32, protected: &mut Vec<i64>) {
     let deep = depth >= 3;
-    let w: [u32; 19] = [
+    let w: [u32; 20] = [
         8,                          // 0 add const
         3,                          // 1 clear / set
         8,                          // 2 drain with multipliers
@@ -235,6 +235,7 @@ fn stmt(b: &mut Builder, depth: u32, protected: &mut Vec<i64>) {
         3,                          // 16 conditional (input dependent) write to a cell, then use of that cell
         if deep { 0 } else { 2 },   // 17 loop on a cell that an inner if may have zeroed, with output inside
         4,                          // 18 strided loop on (copy of a cell + constant): symbolic 2-adic trip counts, results to 1-2 cells
+        if depth >= 2 { 0 } else { 4 }, // 19 the same expression over two cells computed before and inside two sibling loops (value numbering across loops)
     ];
     match b.rng.weighted(&w) {
         0 => {
@@ -496,6 +497,64 @@ fn stmt(b: &mut Builder, depth: u32, protected: &mut Vec<i64>) {
                     b.drain(x, &[(y, 1)], 1);
                     b.output(y);
                 }
+            }
+        }
+        19 => {
+            let a = b.cell();
+            let mut not = protected.clone();
+            not.push(a);
+            let bb = b.cell_not(&not);
+            not.push(bb);
+            let t = b.cell_not(&not);
+            not.push(t);
+            let c = b.cell_not(&not);
+            not.push(c);
+            let mut dsts = Vec::new();
+            for _ in 0..3 {
+                let d = b.cell_not(&not);
+                not.push(d);
+                dsts.push(d);
+            }
+            let (k1, k2) = (b.rng.range(1, 2), b.rng.range(1, 3));
+            let mul = b.rng.chance(1, 3);
+            let recipe = |b: &mut Builder, dst: i64| {
+                b.clear(t);
+                if mul {
+                    // dst += a * bb via a counter copy in c is too costly here; use a scaled sum instead
+                    b.add_mul(dst, a, k1 + 1, t);
+                    b.add_mul(dst, bb, k2, t);
+                } else {
+                    b.add_mul(dst, a, k1, t);
+                    b.add_mul(dst, bb, k2, t);
+                }
+            };
+            recipe(b, dsts[0]);
+            b.output(dsts[0]);
+            for l in 0..2 {
+                match b.rng.below(3) {
+                    0 => b.input(c),
+                    _ => {
+                        let v = b.rng.range(2, 3);
+                        b.set(c, v);
+                    }
+                }
+                b.goto(c);
+                b.out.push('[');
+                recipe(b, dsts[l + 1]);
+                b.output(dsts[l + 1]);
+                if b.rng.chance(1, 2) {
+                    // something else derived from the same cells, then a write to an earlier result
+                    let kk = b.rng.range(1, 3);
+                    b.add_mul(dsts[(l + 2) % 3], a, kk, t);
+                    b.output(dsts[(l + 2) % 3]);
+                }
+                if b.rng.chance(1, 2) {
+                    b.add(dsts[0], 1);
+                    b.output(dsts[0]);
+                }
+                b.add(c, -1);
+                b.goto(c);
+                b.out.push(']');
             }
         }
         18 => {
